@@ -451,18 +451,22 @@ std::string OpRelativation::UpdatedExpression(const std::string_view input) cons
 
 void OpRelativation::UpdatedFunctionCalls(std::string& input) const {
   const std::string addStr{ baseID + ", " };
-  for (const auto& funcName : moifiedFuncs) {
-    std::vector<size_t> insertPositions{};
-    auto findPos = input.find(funcName);
-    while (findPos != std::string::npos) {
-      insertPositions.push_back(findPos + size(funcName) + 1);
-      findPos = input.find(funcName, findPos + 1);
+  std::vector<size_t> insertPositions{};
+  {
+    // Note: match whole identifiers only, F1 should not be found in F11
+    rslang::detail::MathLexer lex{ input };
+    auto isCall = false;
+    for (auto token = lex.lex(); token != TokenID::END; token = lex.lex()) {
+      if (isCall && token == TokenID::PUNC_SL) {
+        insertPositions.push_back(static_cast<size_t>(lex.RangeInBytes().finish));
+      }
+      isCall = rslang::TFFactory::FilterGlobals()(token) && moifiedFuncs.contains(lex.Text());
     }
-    size_t difLen{ 0 };
-    for (auto pos : insertPositions) {
-      input.insert(pos + difLen, addStr);
-      difLen += addStr.length();
-    }
+  }
+  size_t difLen{ 0 };
+  for (const auto pos : insertPositions) {
+    input.insert(pos + difLen, addStr);
+    difLen += addStr.length();
   }
 }
 
